@@ -228,6 +228,10 @@ def run_family(ctx, owner, n_model, n_random):
     else:
         ctx.model_check("RollupTool", "RollupTool_mut2.cfg", expect_violation="LeftoversNeverMatter", note="readers built from the unfiltered file lists")
         ctx.model_check("RollupTool", "RollupTool_mut6.cfg", expect_violation="LeftoversNeverMatter", note="temp files appended to instead of truncated")
+        ctx.model_check("RollupTool", "RollupTool_fmt.cfg" if ctx.quick else "RollupTool_fmt2.cfg",
+                        note="collections as text or Parquet files: a roll reads and writes the format the directory dictates, refuses when both are present")
+        ctx.model_check("RollupTool", "RollupTool_obs1.cfg", expect_violation="RefusalNeverByLeftovers",
+                        note="shown reachable: the tool's own earlier Parquet files alone make it refuse text inputs (finding F-09c, driven by C09's fmt_switch scenarios)")
         ctx.liveness("RollupTool", unfair_control=not ctx.quick)
     hs, _ = histories_from_model(ctx.quick)
     # prefer histories with at least two rolls or a drop (the interesting ones), keep a share of the plain ones
